@@ -26,6 +26,7 @@ import (
 	"time"
 
 	"github.com/gogo/protobuf/proto"
+	"github.com/pingcap/kvproto/pkg/encryptionpb"
 	"github.com/pingcap/kvproto/pkg/metapb"
 	"github.com/tikv/pd/pkg/etcdutil"
 	"github.com/tikv/pd/server/core"
@@ -38,6 +39,12 @@ import (
 )
 
 const keyMaxID = "C17/load-id-maxuint64"
+
+// keyRetry: after a pruning load that failed because the removal of an overlapped
+// leftover failed, the retry runs into the cache filled by the failed attempt; two
+// overlapping leftovers with equal versions then evict each other and both are
+// removed from storage while one stays in the cache.
+const keyRetry = "C17/retry-after-failed-overlap-delete"
 
 func TestMain(m *testing.M) { vkit.Main(m, "C17") }
 func TestProp(t *testing.T) {
@@ -448,7 +455,43 @@ type RCase struct {
 	BudgetW int       `json:"budgetw,omitempty"` // budget = heaviest window of this many consecutive items
 	Slack   int       `json:"slack,omitempty"`
 	Prune   bool      `json:"prune,omitempty"`
+	Load    LoadPlan  `json:"load"`
 	ExclMax bool      `json:"exclmax,omitempty"`
+}
+
+// LoadPlan: how the pruning load (LoadRegionsOnce, the entry point of
+// LoadClusterInfo and of the region syncer) is driven.
+type LoadPlan struct {
+	// Fault makes the first call fail part-way; it is retried with the fault gone.
+	//  delete : leveldb, the removal of an overlapped/stale leftover fails (handle closed underneath)
+	//  corrupt: leveldb, one stored record cannot be decoded (restored before the retry)
+	//  range  : memory kv, LoadRange fails from the At-th call on until the page size is exhausted
+	Fault string `json:"fault,omitempty"`
+	At    int    `json:"at,omitempty"`
+	Conc  int    `json:"conc,omitempty"` // leveldb: this many goroutines call LoadRegionsOnce together
+}
+
+func genLoadPlan(t *rapid.T, backend string) LoadPlan {
+	var p LoadPlan
+	switch backend {
+	case "leveldb":
+		switch pick(t, "loadPlan", []string{"", "", "delete", "delete", "corrupt", "corrupt", "conc", "conc"}) {
+		case "delete":
+			p.Fault = "delete"
+		case "corrupt":
+			p.Fault = "corrupt"
+		case "conc":
+			p.Conc = pick(t, "conc", []int{2, 3})
+		}
+	case "mem", "budget":
+		if pick(t, "loadPlan", []bool{true, false, false}) {
+			p.Fault = "range"
+		}
+	}
+	if p.Fault != "" {
+		p.At = rapid.IntRange(0, 400).Draw(t, "faultAt")
+	}
+	return p
 }
 
 var (
@@ -545,6 +588,9 @@ func genRegionCase(t *rapid.T) RCase {
 		c.Big = append(c.Big, BigSlot{Slot: slot, Pad: pick(t, "latePad", []int{20000, 40000})})
 	}
 	c.Prune = rapid.IntRange(0, 3).Draw(t, "prune") != 0
+	if c.Prune {
+		c.Load = genLoadPlan(t, c.Backend)
+	}
 	return c
 }
 
@@ -562,6 +608,9 @@ func genBulkCase(t *rapid.T) RCase {
 	news := genROps(t, &c, 6)
 	c.IDs, c.ExclMax = genIDs(t, c.N+news, false)
 	c.Prune = rapid.Bool().Draw(t, "prune")
+	if c.Prune {
+		c.Load = genLoadPlan(t, c.Backend)
+	}
 	return c
 }
 
@@ -1263,23 +1312,190 @@ func runRegionCase(c RCase) (info vkit.Info, err error) {
 		}
 		bc := core.NewBasicCluster()
 		setBudget(true)
-		pst := f.storage()
-		if m.leveldb {
-			e = pst.LoadRegionsOnce(bc.CheckAndPutRegion)
-		} else {
-			e = pst.LoadRegions(bc.CheckAndPutRegion)
+		pst := f.storage() // one Storage object for all calls: its "regions loaded once" flag is part of what is tested
+		var (
+			cbMu      sync.Mutex
+			delivered = map[uint64]int{} // deliveries during the current call(s)
+			cbCalls   int
+			armed     bool // delete fault: close the handle when overlaps are about to be removed
+			fired     bool
+			returned  int32
+			slowFirst bool
+		)
+		cb := func(r *core.RegionInfo) []*core.RegionInfo {
+			cbMu.Lock()
+			delivered[r.GetID()]++
+			n := cbCalls
+			cbCalls++
+			wait := slowFirst && n == 0
+			cbMu.Unlock()
+			if wait {
+				// scheduling aid only: give the other callers a chance to return early if they ever do
+				for i := 0; i < 30 && atomic.LoadInt32(&returned) == 0; i++ {
+					time.Sleep(100 * time.Microsecond)
+				}
+			}
+			ov := bc.CheckAndPutRegion(r)
+			if len(ov) > 0 && armed && !fired && n >= c.Load.At%(len(pre)+1) {
+				fired = true
+				f.rs.LeveldbKV.DB.Close()
+			}
+			return ov
 		}
-		if e != nil {
-			return info, fmt.Errorf("prune: LoadRegions(CheckAndPutRegion) failed: %v", e)
+		resetDelivered := func() {
+			cbMu.Lock()
+			delivered = map[uint64]int{}
+			cbMu.Unlock()
+		}
+		var firstErr error
+		mid := pre // what is stored when the call that returns nil starts
+		switch {
+		case c.Load.Conc >= 2 && m.leveldb:
+			slowFirst = true
+			type res struct {
+				err error
+				ids map[uint64]bool
+			}
+			out := make([]res, c.Load.Conc)
+			var wg sync.WaitGroup
+			for g := 0; g < c.Load.Conc; g++ {
+				wg.Add(1)
+				go func(g int) {
+					defer wg.Done()
+					err := pst.LoadRegionsOnce(cb)
+					ids := map[uint64]bool{}
+					for _, r := range bc.GetMetaRegions() {
+						ids[r.GetId()] = true
+					}
+					atomic.AddInt32(&returned, 1)
+					out[g] = res{err, ids}
+				}(g)
+			}
+			wg.Wait()
+			final := map[uint64]bool{}
+			for _, r := range bc.GetMetaRegions() {
+				final[r.GetId()] = true
+			}
+			for g, o := range out {
+				if o.err != nil {
+					return info, fmt.Errorf("prune: concurrent LoadRegionsOnce call %d of %d failed: %v", g, c.Load.Conc, o.err)
+				}
+				if len(o.ids) != len(final) {
+					return info, fmt.Errorf("prune: concurrent LoadRegionsOnce call %d of %d returned nil while the load was not complete: the cache held %d regions then, %d when all calls had returned", g, c.Load.Conc, len(o.ids), len(final))
+				}
+				for id := range final {
+					if !o.ids[id] {
+						return info, fmt.Errorf("prune: concurrent LoadRegionsOnce call %d of %d returned nil while region %d was not loaded yet", g, c.Load.Conc, id)
+					}
+				}
+			}
+			info.Class(fmt.Sprintf("load-once-concurrent-%d", c.Load.Conc))
+		default:
+			var corruptID uint64
+			injected := false
+			switch {
+			case c.Load.Fault == "delete" && m.leveldb:
+				armed = true
+			case c.Load.Fault == "corrupt" && m.leveldb && len(pre) > 0:
+				// one record that cannot be decoded: it carries encryption meta, the storage has no keys
+				victim := pre[c.Load.At%len(pre)]
+				bad := proto.Clone(victim).(*metapb.Region)
+				bad.EncryptionMeta = &encryptionpb.EncryptionMeta{KeyId: 7, Iv: make([]byte, 16)}
+				raw, _ := proto.Marshal(bad)
+				corruptID = victim.GetId()
+				if e := f.rs.LeveldbKV.Save(fmt.Sprintf("raft/r/%020d", corruptID), string(raw)); e != nil {
+					return info, fmt.Errorf("prune: cannot inject the bad record: %v", e)
+				}
+				injected = true
+			case c.Load.Fault == "range" && !m.leveldb && c.Backend != "etcd":
+				nRange := 0
+				at := c.Load.At % 4
+				f.fk.SetGate(func(kind, key string) error {
+					if kind != "range" {
+						return nil
+					}
+					nRange++
+					if nRange > at {
+						injected = true
+						return faultkv.ErrInjected
+					}
+					return nil
+				})
+			}
+			firstErr = pst.LoadRegionsOnce(cb)
+			// the fault goes away
+			if fired {
+				if e := healDB(); e != nil {
+					return info, fmt.Errorf("prune: cannot reopen leveldb: %v", e)
+				}
+			}
+			if corruptID != 0 {
+				good, _ := proto.Marshal(pre[c.Load.At%len(pre)])
+				if e := f.rs.LeveldbKV.Save(fmt.Sprintf("raft/r/%020d", corruptID), string(good)); e != nil {
+					return info, fmt.Errorf("prune: cannot restore the record: %v", e)
+				}
+			}
+			f.fk.SetGate(nil)
+			armed = false
+			if firstErr != nil {
+				if !fired && !injected {
+					return info, fmt.Errorf("prune: LoadRegionsOnce(CheckAndPutRegion) failed without a fault: %v", firstErr)
+				}
+				info.Class("load-once-failed-then-retried:" + c.Load.Fault)
+				// retry on the same Storage: a call that returns nil must have completed the load
+				mid, e = load("load between the failed LoadRegionsOnce and its retry")
+				if e != nil {
+					return info, e
+				}
+				resetDelivered()
+				if e := pst.LoadRegionsOnce(cb); e != nil {
+					return info, fmt.Errorf("prune: LoadRegionsOnce retried after the fault (%s) had gone still fails: %v", c.Load.Fault, e)
+				}
+			}
 		}
 		post, e := load("post-prune load")
 		if e != nil {
 			return info, e
 		}
-		if e := checkPruned(pre, post, bc); e != nil {
-			return info, fmt.Errorf("prune: %v", e)
+		why := ""
+		if firstErr != nil {
+			why = fmt.Sprintf(" (first LoadRegionsOnce failed on the injected %s fault: %v; the retry returned nil)", c.Load.Fault, firstErr)
+		}
+		// the call(s) that returned nil delivered every region stored at that time exactly once
+		for _, r := range mid {
+			if n := delivered[r.GetId()]; n != 1 {
+				return info, fmt.Errorf("prune%s: region %d was stored but was delivered %d times by the LoadRegionsOnce call(s) that returned nil", why, r.GetId(), n)
+			}
+		}
+		knownRetry := fired && firstErr != nil && vkit.Known(keyRetry)
+		if knownRetry {
+			// known finding: cache and storage may disagree after this retry; the delivery oracle above still holds
+			info.Exclude(keyRetry)
+		} else if e := checkPruned(pre, post, bc); e != nil {
+			return info, fmt.Errorf("prune%s: %v", why, e)
+		}
+		for _, id := range sortedCount(delivered) {
+			if delivered[id] > 1 {
+				return info, fmt.Errorf("prune%s: region %d delivered %d times by the LoadRegionsOnce call(s) that returned nil", why, id, delivered[id])
+			}
 		}
 		pruned = len(pre) - len(post)
+		// "once": a further call returns nil and leaves cache and storage as they are
+		if e := pst.LoadRegionsOnce(cb); e != nil {
+			return info, fmt.Errorf("prune: a further LoadRegionsOnce after a successful one failed: %v", e)
+		}
+		post2, e := load("load after a second LoadRegionsOnce")
+		if e != nil {
+			return info, e
+		}
+		if e := sameRegions(post2, post); e != nil {
+			return info, fmt.Errorf("prune: storage changed by a further LoadRegionsOnce: %v", e)
+		}
+		if !knownRetry {
+			if e := sameRegions(bc.GetMetaRegions(), post); e != nil {
+				return info, fmt.Errorf("prune: cache and storage differ after a further LoadRegionsOnce: %v", e)
+			}
+		}
 		if m.leveldb {
 			// the removals must be durable as well
 			if e := st.Close(); e != nil {
@@ -1315,6 +1531,15 @@ func runRegionCase(c RCase) (info vkit.Info, err error) {
 	return info, nil
 }
 
+func sortedCount(m map[uint64]int) []uint64 {
+	ids := make([]uint64, 0, len(m))
+	for id := range m {
+		ids = append(ids, id)
+	}
+	sort.Slice(ids, func(i, j int) bool { return ids[i] < ids[j] })
+	return ids
+}
+
 // dedupe keeps every class label once per case (the histogram counts cases).
 func dedupe(info *vkit.Info) {
 	sort.Strings(info.Classes)
@@ -1330,7 +1555,7 @@ func dedupe(info *vkit.Info) {
 // caseDigest makes samples of big cases distinct without storing them.
 func caseDigest(c *RCase) string {
 	var b bytes.Buffer
-	fmt.Fprintf(&b, "%v|%d|%d|%v|%v|%d|%d|%v|%v", c.IDs, c.N, c.Slots, c.VMixed, c.Big, c.BudgetW, c.Slack, c.Prune, c.Ops)
+	fmt.Fprintf(&b, "%v|%d|%d|%v|%v|%d|%d|%v|%v|%v", c.IDs, c.N, c.Slots, c.VMixed, c.Big, c.BudgetW, c.Slack, c.Prune, c.Ops, c.Load)
 	h := uint64(14695981039346656037)
 	for _, x := range b.Bytes() {
 		h ^= uint64(x)
@@ -1583,4 +1808,69 @@ func TestFinding_LoadIDMaxUint64(t *testing.T) {
 	okR, _ := st.LoadRegion(math.MaxUint64, &oneR)
 	vkit.Finding(t, keyMaxID, missS || missR,
 		fmt.Sprintf("saved stores and regions with ids %v on the memory backend; LoadStores returned %v, LoadRegions returned %v; LoadStore(2^64-1) found=%v LoadRegion(2^64-1) found=%v", ids, stores, regions, okS, okR))
+}
+
+// TestFinding_RetryAfterFailedOverlapDelete: two overlapping leftovers with equal
+// versions; the first LoadRegionsOnce fails when it removes the overlapped one
+// (storage write fault); the retry (same cache, as in the server, where the syncer
+// and LoadClusterInfo share the BasicCluster) returns nil, and afterwards the cache
+// holds one region while the storage holds none.
+func TestFinding_RetryAfterFailedOverlapDelete(t *testing.T) {
+	dir, err := os.MkdirTemp(tmpBase(), "c17-probe-")
+	if err != nil {
+		t.Skip(err)
+	}
+	defer os.RemoveAll(dir)
+	f := &rfix{backend: "leveldb", fk: faultkv.New(kv.NewMemoryKV()), dir: dir}
+	if err := f.openRS(); err != nil {
+		t.Fatalf("open: %v", err)
+	}
+	defer func() {
+		if f.rs != nil {
+			f.rs.Close()
+		}
+	}()
+	st := f.storage()
+	for id := uint64(1); id <= 2; id++ {
+		r := &metapb.Region{Id: id, StartKey: []byte("a"), EndKey: []byte("b"), RegionEpoch: &metapb.RegionEpoch{ConfVer: 1, Version: 1},
+			Peers: []*metapb.Peer{{Id: 10 + id, StoreId: 1}}}
+		if err := st.SaveRegion(r); err != nil {
+			t.Fatalf("save: %v", err)
+		}
+	}
+	if err := st.Flush(); err != nil {
+		t.Fatalf("flush: %v", err)
+	}
+	bc := core.NewBasicCluster()
+	broke := false
+	cb := func(r *core.RegionInfo) []*core.RegionInfo {
+		ov := bc.CheckAndPutRegion(r)
+		if len(ov) > 0 && !broke {
+			broke = true
+			f.rs.LeveldbKV.DB.Close()
+		}
+		return ov
+	}
+	err1 := st.LoadRegionsOnce(cb)
+	h, err := kv.NewLeveldbKV(dir)
+	if err != nil {
+		t.Fatalf("reopen: %v", err)
+	}
+	f.rs.LeveldbKV = h
+	err2 := st.LoadRegionsOnce(cb)
+	var stored []uint64
+	f.storage().LoadRegions(func(r *core.RegionInfo) []*core.RegionInfo { stored = append(stored, r.GetID()); return nil })
+	var cached []uint64
+	for _, r := range bc.GetMetaRegions() {
+		cached = append(cached, r.GetId())
+	}
+	sort.Slice(cached, func(i, j int) bool { return cached[i] < cached[j] })
+	same := len(stored) == len(cached)
+	for i := range stored {
+		if same && stored[i] != cached[i] {
+			same = false
+		}
+	}
+	vkit.Finding(t, keyRetry, err1 != nil && err2 == nil && !same,
+		fmt.Sprintf("regions 1 and 2, both [a,b) version 1, flushed to the leveldb region storage; first LoadRegionsOnce(CheckAndPutRegion) with the removal of the overlapped region failing: %v; retry after the fault had gone: %v; afterwards storage ids %v, cache ids %v", err1, err2, stored, cached))
 }
